@@ -69,7 +69,8 @@ def StmtRet (img : Image) (K : Ctx) (st : Stmt) (f : Nat) : Prop :=
     execStmt f st σ = (.ret, σ') → Exec img s (RetPost K σ')
 
 /-- `return` / `return v` inside a routine -/
-theorem stmt_ret (f : Nat) (v : Option Rv) (hv : match v with | some rv => RvOK rv | none => True)
+theorem stmt_ret (f : Nat) (ihRv : RvToGoal V img K f) (v : Option Rv)
+    (hv : match v with | some rv => RvC V rv | none => True)
     (ret : Nat) (rest : List Frame) (evc : List Val) (hK : K.ret = some (ret, rest, evc)) :
     StmtRet img K (.ret v) (f + 1) := by
   intro σ σ' s pc exit stk sim hpc hc h
@@ -88,18 +89,17 @@ theorem stmt_ret (f : Nat) (v : Option Rv) (hv : match v with | some rv => RvOK 
     rw [e]
     exact exec_ret hsim rfl hc.tail.head ret rest evc hK .none (by simp [State.setReg])
   | some rv =>
-    have hv : RvOK rv := hv
+    have hv : RvC V rv := hv
     simp only [execStmt] at h
     split at h
     · rename_i x σ1 hev
       simp only [Prod.mk.injEq, true_and] at h
       subst h
-      obtain ⟨rfl, hex⟩ := exec_toResult rv hv sim hpc hc.left hev
-      refine hex.trans fun t ⟨ht, hres⟩ => ?_
+      refine (rv_toResult ihRv rv hv sim hpc hc.left hev).trans fun t ⟨ht, hres⟩ => ?_
       exact exec_ret ht.2 ht.1 hc.right.head ret rest evc hK x hres
     · rename_i o' hev
       simp only [Prod.mk.injEq] at h
-      have := evalRv_error hv f σ _ hev
+      have := evalRvC_error hev
       rw [h.1] at this
       simp at this
 
@@ -123,8 +123,8 @@ theorem leaf_not_ret (f : Nat) (st : Stmt) (hst : FragStmt V st) (σ σ' : S)
     (h : execStmt (f + 1) st σ = (.ret, σ')) :
     (∃ c t e, st = .ite c t e) ∨ (∃ hd b, st = .repeat_ hd b) ∨ (∃ k ops, st = .action k ops) ∨
     (∃ v, st = .ret v) ∨ (∃ g ps as, st = .call g ps as) := by
-  have hrv : ∀ {v : Rv} {o}, RvOK v → evalRv f v σ = .error o → o ≠ .ret :=
-    fun hv he => (evalRv_error hv f σ _ he).2.2
+  have hrv : ∀ {v : Rv} {o}, evalRv f v σ = .error o → o ≠ .ret :=
+    fun he => (evalRvC_error he).2.2
   cases st with
   | ite c t e => exact Or.inl ⟨c, t, e, rfl⟩
   | repeat_ hd b => exact Or.inr (Or.inl ⟨hd, b, rfl⟩)
@@ -139,7 +139,7 @@ theorem leaf_not_ret (f : Nat) (st : Stmt) (hst : FragStmt V st) (σ σ' : S)
     · simp at h
     · rename_i o he
       simp only [Prod.mk.injEq] at h
-      exact hrv hst.2 he h.1
+      exact hrv he h.1
   | assign n v =>
     exfalso
     simp only [execStmt] at h
@@ -147,7 +147,7 @@ theorem leaf_not_ret (f : Nat) (st : Stmt) (hst : FragStmt V st) (σ σ' : S)
     · simp at h
     · rename_i o he
       simp only [Prod.mk.injEq] at h
-      exact hrv hst he h.1
+      exact hrv he h.1
   | print v =>
     exfalso
     simp only [execStmt] at h
@@ -155,7 +155,7 @@ theorem leaf_not_ret (f : Nat) (st : Stmt) (hst : FragStmt V st) (σ σ' : S)
     · simp at h
     · rename_i o he
       simp only [Prod.mk.injEq] at h
-      exact hrv hst he h.1
+      exact hrv he h.1
   | println v =>
     exfalso
     cases v with
@@ -166,7 +166,7 @@ theorem leaf_not_ret (f : Nat) (st : Stmt) (hst : FragStmt V st) (σ σ' : S)
       · simp at h
       · rename_i o he
         simp only [Prod.mk.injEq] at h
-        exact hrv (show RvOK rv from hst) he h.1
+        exact hrv he h.1
   | get name =>
     exfalso
     simp only [execStmt] at h
@@ -174,7 +174,7 @@ theorem leaf_not_ret (f : Nat) (st : Stmt) (hst : FragStmt V st) (σ σ' : S)
     · exact device_ne_ret h
     · rename_i o he
       simp only [Prod.mk.injEq] at h
-      exact hrv hst he h.1
+      exact hrv he h.1
   | printf fmt as =>
     exfalso
     simp only [execStmt] at h
@@ -361,7 +361,7 @@ theorem loopBody_ret {r : Outcome × S} {Kf : S → Outcome × S} {σ' : S}
   | _ => simp [loopBody] at h
 
 def WhileRet (V : String → Prop) (img : Image) (K : Ctx) (f : Nat) : Prop :=
-  ∀ (c : Option Rv) (body : Block), CondOK c → FragBlock V body →
+  ∀ (c : Option Rv) (body : Block), CondOK V c → FragBlock V body →
   ∀ (σ σ' : S) (s : State) (top : Nat) (stk : Stk)
     (vars : List (LoopVar × Val)) (extra : List Val) (off : Int),
     Sim K (stk.inner vars extra) σ s → s.pc = (top : Int) →
@@ -376,7 +376,7 @@ theorem while_ret_zero : WhileRet V img K 0 := by
   intro c body _ _ σ σ' s top stk vars extra off _ _ _ _ h
   simp [execWhile] at h
 
-theorem while_ret_step (f : Nat) (ihB : BlockGoal V img K f) (ihBR : BlockRet V img K f)
+theorem while_ret_step (f : Nat) (ihRv : RvToGoal V img K f) (ihB : BlockGoal V img K f) (ihBR : BlockRet V img K f)
     (ihW : WhileRet V img K f) : WhileRet V img K (f + 1) := by
   intro c body hcnd hb σ σ' s top stk vars extra off sim hpc hc hoff h
   rw [execWhile_succ] at h
@@ -388,10 +388,10 @@ theorem while_ret_step (f : Nat) (ihB : BlockGoal V img K f) (ihBR : BlockRet V 
   split at h
   · rename_i o' he
     simp only [Prod.mk.injEq] at h
-    exact ((semTest_error hcnd f σ _ he).2.2 h.1).elim
+    exact ((semTest_error f σ _ he).2.2 h.1).elim
   · simp at h
   · rename_i s1 he
-    obtain ⟨rfl, hex⟩ := exec_test c hcnd sim hpc hct he
+    have hex := exec_test ihRv c hcnd sim hpc hct he
     have hjmp : ∀ t0, (At K (top + (testCode c).length) (stk.inner vars extra) [] s1 t0 ∧
         (t0.regs .result).truthy = true) →
         Exec img t0 (At K (top + (testCode c).length + 1) (stk.inner vars extra) [] s1) := by
@@ -489,7 +489,7 @@ theorem loop_ret_zero : LoopRet V img K 0 := by
   simp [execLoop] at h
 
 
-theorem loop_while_ret (f : Nat) (ihW : WhileRet V img K f) (c : Option Rv) (hcnd : CondOK c) (body : Block)
+theorem loop_while_ret (f : Nat) (ihW : WhileRet V img K f) (c : Option Rv) (hcnd : CondOK V c) (body : Block)
     (hb : FragBlock V body) (σ σ' : S) (s : State) (pc exit : Nat) (stk : Stk)
     (sim : Sim K stk σ s) (hpc : s.pc = (pc : Int))
     (hc : CodeAt img pc (resolve (assembleLoop [] (testCode c) [] (genBlock body) []) pc exit))
@@ -532,7 +532,8 @@ theorem loop_counted_ret (f : Nat) (ihC : CountRet V img K f) (pre : List Instr)
   exact ihC body hb lv ix names σ1 σ' t' _ stk vars cnt q fl _ ht'.2 ht'.1 hcnt hnum hk hincr hrest
     (by omega) h
 
-theorem loop_count_ret (f : Nat) (ihC : CountRet V img K f) (n : Rv) (hn : RvOK n) (body : Block)
+theorem loop_count_ret (f : Nat) (ihRv : RvToGoal V img K f) (ihC : CountRet V img K f) (n : Rv) (hn : RvC V n)
+    (body : Block)
     (hb : FragBlock V body) (σ σ' : S) (s : State) (pc exit : Nat) (stk : Stk)
     (sim : Sim K stk σ s) (hpc : s.pc = (pc : Int))
     (hc : CodeAt img pc (resolve (genLoop (.count n) (genBlock body)) pc exit))
@@ -542,7 +543,7 @@ theorem loop_count_ret (f : Nat) (ihC : CountRet V img K f) (n : Rv) (hn : RvOK 
   split at h
   · rename_i o' he
     simp only [Prod.mk.injEq] at h
-    exact ((evalRv_error hn f σ _ he).2.2 h.1).elim
+    exact ((evalRvC_error he).2.2 h.1).elim
   · rename_i x σ1 he
     split at h
     · rename_i q hq
@@ -550,7 +551,7 @@ theorem loop_count_ret (f : Nat) (ihC : CountRet V img K f) (n : Rv) (hn : RvOK 
       rw [passCount_eq, ← bindsOf_none] at h
       refine loop_counted_ret f ihC _ none none body hb _ σ σ1 σ' s pc exit stk sim hpc hc ?_ h
       intro hcpre t ht
-      obtain ⟨rfl, hcnt⟩ := exec_toCounter n hn [] _ ht.2 ht.1 hcpre he
+      have hcnt := rv_toLoopVar ihRv n hn .counter [] _ ht.2 ht.1 hcpre he
       exact hcnt.mono fun t' ht' => ⟨_, x, q, fl, ht', getVar_putVar [] .counter x, hnum, by simp,
         (passes_replicate _).symm⟩
     · simp at h
@@ -707,7 +708,7 @@ theorem loop_names_ret (g : Nat) (ihC : CountRet V img K g) (disc : List Instr) 
         subst hp'
         exact hi2
 
-theorem loop_ret_step (f : Nat) (ihW : WhileRet V img K f) (ihC : CountRet V img K f)
+theorem loop_ret_step (f : Nat) (ihRv : RvToGoal V img K f) (ihW : WhileRet V img K f) (ihC : CountRet V img K f)
     (ihC1 : ∀ g, g + 1 = f → CountRet V img K g) : LoopRet V img K (f + 1) := by
   intro hd body hhd hb σ σ' s pc exit stk sim hpc hc h
   cases hd with
@@ -717,7 +718,7 @@ theorem loop_ret_step (f : Nat) (ihW : WhileRet V img K f) (ihC : CountRet V img
   | while_ c =>
     exact loop_while_ret f ihW (some c) hhd body hb σ σ' s pc exit stk sim hpc hc
       (by simpa only [execLoop] using h)
-  | count n => exact loop_count_ret f ihC n hhd body hb σ σ' s pc exit stk sim hpc hc h
+  | count n => exact loop_count_ret f ihRv ihC n hhd body hb σ σ' s pc exit stk sim hpc hc h
   | range v a b => exact loop_range_ret f ihC v a b hhd.1 hhd.2 body hb σ σ' s pc exit stk sim hpc hc h
   | interp n v a b =>
     exact loop_with_ret f ihC n hhd.1 (.fromTo v a b) hhd.2 body hb σ σ' s pc exit stk sim hpc hc
@@ -773,96 +774,6 @@ theorem loop_ret_step (f : Nat) (ihW : WhileRet V img K f) (ihC : CountRet V img
         intro vars t p ht hp hcd hcnt
         refine (exec_iterItems items hhd.1 (g + 1) σ σ1 names vars [] t p 0 he ht hp hcd hcnt).mono
           fun t' ⟨vars', ht', hc'⟩ => ⟨vars', by simpa using ht', by simpa using hc'⟩
-
-
-/-! ### arguments -/
-
-/-- the value of a simple argument at source level -/
-def semVal (σ : S) : Rv → Val
-  | .lit v => v
-  | .var n => σ.lookup n
-  | .reg r => σ.vm.regs r
-  | _ => .none
-
-/-- the callee's dictionary at source level: parameters bound in order -/
-def semArgs (σ : S) : List String → Args → Dict
-  | p :: ps, .cons a rest => (p, semVal σ a) :: semArgs σ ps rest
-  | _, _ => []
-
-theorem evalRv_simple {a : Rv} (ha : SimpleArg a) (f : Nat) (σ : S) :
-    evalRv (f + 1) a σ = .ok (semVal σ a, σ) := by
-  cases ha <;> simp [evalRv, semVal]
-
-theorem evalArgs_simple : ∀ (f : Nat) (ps : List String) (as : Args), SimpleArgs as → ∀ (σ : S),
-    (∀ d σ', evalArgs f ps as σ = .ok (d, σ') → σ' = σ ∧ d = semArgs σ ps as) ∧
-    (∀ o, evalArgs f ps as σ = .error o → o = .outOfFuel) := by
-  intro f
-  induction f with
-  | zero => intro ps as _ σ; simp [evalArgs]
-  | succ f ih =>
-    intro ps as has σ
-    cases ps with
-    | nil => cases as <;> simp [evalArgs, semArgs]
-    | cons p ps =>
-      cases has with
-      | nil => simp [evalArgs, semArgs]
-      | @cons a rest ha hrest =>
-        cases f with
-        | zero => simp [evalArgs, evalRv]
-        | succ f =>
-          obtain ⟨ih1, ih2⟩ := ih ps rest hrest σ
-          simp only [evalArgs, evalRv_simple ha f σ]
-          constructor
-          · intro d σ' h
-            split at h
-            · simp at h
-            · rename_i d' s2 he
-              simp only [Except.ok.injEq, Prod.mk.injEq] at h
-              obtain ⟨rfl, rfl⟩ := h
-              obtain ⟨rfl, rfl⟩ := ih1 d' s2 he
-              exact ⟨rfl, rfl⟩
-          · intro o h
-            split at h
-            · rename_i o' he
-              simp only [Except.error.injEq] at h
-              subst h
-              exact ih2 _ he
-            · simp at h
-
-
-theorem semVal_read {stk : Stk} {un : List Val} {σ : S} {s : State} (h : SimU K stk un σ s)
-    {a : Rv} (ha : SimpleArg a) (hn : a ≠ .reg .result) : s.read a.src = semVal σ a := by
-  cases ha with
-  | lit v => rfl
-  | var n => simp only [Rv.src, State.read, semVal, h.lookup n]
-  | reg r =>
-    have : r ≠ .result := fun e => hn (by rw [e])
-    simp only [Rv.src, State.read, semVal, h.regs r this]
-
-/-- the machine's `PARAM` sequence builds the source-level dictionary when the parameter names
-are distinct -/
-theorem bindRead_eq {stk : Stk} {un : List Val} {σ : S} {s : State} (h : SimU K stk un σ s) :
-    ∀ (ps : List String) (as : Args), SimpleArgs as → NoResultReg as → ps.Nodup →
-    ∀ (d : Dict), (∀ p ∈ ps, d.any (·.1 == p) = false) →
-      bindRead s ps as d = d ++ semArgs σ ps as := by
-  intro ps
-  induction ps with
-  | nil => intro as _ _ _ d _; cases as <;> simp [bindRead, semArgs]
-  | cons p ps ih =>
-    intro as has hnr hnd d hd
-    cases has with
-    | nil => simp [bindRead, semArgs]
-    | @cons a rest ha hrest =>
-      have hp : d.any (·.1 == p) = false := hd p (by simp)
-      have hput : d.put p (s.read a.src) = d ++ [(p, semVal σ a)] := by
-        simp only [Dict.put, hp, Bool.false_eq_true, if_false, semVal_read h ha hnr.1]
-      simp only [bindRead, semArgs, hput]
-      rw [ih rest hrest hnr.2 (List.nodup_cons.1 hnd).2 _ ?_]
-      · simp
-      · intro p' hp'
-        have hne : p ≠ p' := fun e => (List.nodup_cons.1 hnd).1 (e ▸ hp')
-        have := hd p' (by simp [hp'])
-        simp [List.any_append, this, hne]
 
 
 /-! ## calls -/
@@ -976,72 +887,6 @@ theorem exec_end {stk : Stk} {σ : S} {s : State} {pc : Nat} (h : Sim K stk σ s
       h.trace, h.defaultColor, h.matrix, h.draws, h.regs⟩
 
 
-/-- the context of a callee: it returns to `ret`, above the caller's whole stack -/
-def calleeCtx (K : Ctx) (ret : Nat) (callerStack : List Frame) (callerEval : List Val) : Ctx :=
-  ⟨some (ret, callerStack, callerEval), K.routines⟩
-
-/-- a call of a user routine with simple arguments: calling sequence, body (to its end or to a
-`return`, from any loop depth), back in the caller -/
-theorem call_user (f : Nat) (ihB : ∀ r st, BlockGoal V img ⟨some (r, st), K.routines⟩ f)
-    (ihBR : ∀ r st, BlockRet V img ⟨some (r, st), K.routines⟩ f)
-    (g : String) (ps : List String) (as : Args) (has : SimpleArgs as) (hnr : NoResultReg as)
-    (hnd : ps.Nodup) (rt : Sem.Routine) (hfrag : FragBlock V rt.body) (addr : Nat) (nm : String)
-    (haddr : img.routine? g = some addr)
-    (hbody : CodeAt img addr (resolve (genBlock rt.body) addr (0 : Nat) ++ [.end_ nm]))
-    (σ s2 : S) (o2 : Outcome) (s : State) (pc : Nat) (stk : Stk)
-    (sim : Sim K stk σ s) (hpc : s.pc = (pc : Int)) (hc : CodeAt img pc (genCall g ps as))
-    (hex : execBlock f rt.body { σ with locals := some (semArgs σ ps as), result := .none } = (o2, s2))
-    (ho2 : o2 = .normal ∨ o2 = .ret) :
-    Exec img s (At K (pc + (genCall g ps as).length) stk []
-      { s2 with locals := σ.locals, result := .none }) := by
-  obtain ⟨hrun, hendctx⟩ := C03_call_sequence img s pc g addr ps as has sim.running hpc haddr hc
-  have hlen := genCall_length g ps as
-  rw [bindArgs_eq_bindRead s as has hnr, bindRead_eq sim ps as has hnr hnd [] (by simp)] at hrun
-  simp only [List.nil_append] at hrun
-  -- the callee's context and the relation at the routine's entry
-  have hsimc : Sim (calleeCtx K (pc + (genCall g ps as).length - 1) s.stack stk.ev) ⟨[], stk.ev⟩
-      { σ with locals := some (semArgs σ ps as), result := .none }
-      (run img ((genCall g ps as).length - 1) s) := by
-    rw [hrun]
-    exact ⟨sim.running, by simp [baseOf, calleeCtx], LoopsOnly.nil, sim.eval, EvOk.nil, sim.unnamed,
-      ⟨rfl, sim.locals.2⟩, sim.status, sim.umode, sim.globals, sim.constants, sim.lights, sim.trace,
-      sim.defaultColor, sim.matrix, sim.draws, fun r hr => by simp only [if_neg hr]; exact sim.regs r hr⟩
-  have hpcc : (run img ((genCall g ps as).length - 1) s).pc = (addr : Int) := by rw [hrun]
-  have hentry : Exec img s (At (calleeCtx K (pc + (genCall g ps as).length - 1) s.stack stk.ev) addr ⟨[], stk.ev⟩ []
-      { σ with locals := some (semArgs σ ps as), result := .none }) :=
-    ⟨(genCall g ps as).length - 1, hpcc, hsimc⟩
-  refine hentry.trans fun t ht => ?_
-  have hstk : s.stack = stk.frames ++ baseOf K σ.locals := sim.stack
-  have hcb : CodeAt img addr (resolve (genBlock rt.body) addr (0 : Nat)) := hbody.left
-  have hce : img.code[addr + (genBlock rt.body).length]? = some (.end_ nm) := by
-    have := hbody.right.head
-    rwa [resolve_length] at this
-  rcases ho2 with rfl | rfl
-  · -- the body runs to its end
-    refine ((ihB (pc + (genCall g ps as).length - 1) (s.stack, stk.ev)) rt.body hfrag _ s2 .normal t addr 0 ⟨[], stk.ev⟩ ht.2 ht.1 hcb hex (Or.inl rfl)).trans
-      fun t1 ht1 => ?_
-    simp only [Target] at ht1
-    refine (exec_end ht1.2 ht1.1 nm hce (pc + (genCall g ps as).length - 1) s.stack stk.ev rfl).trans
-      fun t2 ht2 => ?_
-    obtain ⟨h1, h2, h3, h4, h5, h6, h7, hum, h8, h9, h10, h11, h12, h13, h14, h15⟩ := ht2
-    apply Exec.step h3
-    apply Exec.done
-    rw [step_eq _ t2 h3 h1 hendctx rfl (by simp only [execInstr]) h3]
-    refine ⟨?_, h3, ?_, sim.loops, h4, sim.evok, h5, ⟨sim.locals.1, h6⟩, h7, hum, h8, h9, h10, h11, h12, h13, h14, h15⟩
-    · show t2.pc + 1 = _
-      rw [h1]; omega
-    · show t2.stack = _
-      rw [h2, hstk]
-  · -- the body returns
-    refine ((ihBR (pc + (genCall g ps as).length - 1) (s.stack, stk.ev)) rt.body hfrag _ s2 t addr 0 ⟨[], stk.ev⟩ ht.2 ht.1
-      hcb hex).mono fun t1 ht1 => ?_
-    have := ht1.toSim (Kc := K) (pc + (genCall g ps as).length - 1) stk σ.locals
-      (by rw [hstk]) sim.locals.1 rfl sim.loops sim.evok
-    have e : pc + (genCall g ps as).length - 1 + 1 = pc + (genCall g ps as).length := by omega
-    rw [e] at this
-    exact this
-
-
 theorem step_jsr_builtin (img : Image) (s : State) (pc : Nat) (g : String) (d : Dict)
     (st : List Frame) (names : List String) (v : Val)
     (hs : s.status = .running) (hpc : s.pc = (pc : Int)) (hst : s.stack = .pending d :: st)
@@ -1062,103 +907,9 @@ theorem step_jsr_builtin (img : Image) (s : State) (pc : Nat) (g : String) (d : 
   · simp only [hr, Bool.false_eq_true, if_false, State.setReg, hs]
     apply State.ext' <;> simp [hpc]
 
-/-- a call of a built-in function as a statement (its value is dropped; `random` still counts
-as a draw) -/
-theorem call_builtin (g : String) (ps : List String) (as : Args) (has : SimpleArgs as)
-    (hnr : NoResultReg as) (hnd : ps.Nodup) (hnone : img.routine? g = none) (names : List String)
-    (hbp : builtinParams g = some names) (v : Val)
-    (σ : S) (s : State) (pc : Nat) (stk : Stk)
-    (sim : Sim K stk σ s) (hpc : s.pc = (pc : Int)) (hc : CodeAt img pc (genCall g ps as))
-    (hval : callBuiltin g (names.map fun n => ((semArgs σ ps as).get n).getD .none) σ.vm.draws = .val v) :
-    Exec img s (At K (pc + (genCall g ps as).length) stk []
-      { σ with vm := if g == "random" then { σ.vm with draws := σ.vm.draws + 1 } else σ.vm }) := by
-  have hlen := genCall_length g ps as
-  simp only [genCall] at hc
-  have hctx : img.code[pc]? = some .ctx := hc.left.left.head
-  have hpar : CodeAt img (pc + 1) (genParams ps as) := by
-    have := hc.left.right
-    simpa using this
-  have hjsr : img.code[pc + 1 + (genParams ps as).length]? = some (.jsr g) := by
-    have := hc.right.head
-    simp only [List.length_append, List.length_cons, List.length_nil] at this
-    rw [← this]; congr 1; omega
-  have hend : img.code[pc + 1 + (genParams ps as).length + 1]? = some .endCtx := by
-    have := hc.right.tail.head
-    simp only [List.length_append, List.length_cons, List.length_nil] at this
-    rw [← this]; congr 1; omega
-  -- CTX and the arguments
-  have hrun : run img (1 + (genParams ps as).length) s =
-      { s with pc := ((pc + 1 : Nat) : Int) + (genParams ps as).length,
-               stack := .pending (semArgs σ ps as) :: s.stack,
-               regs := fun r => if r = .result then lastRes s (s.regs .result) ps as else s.regs r } := by
-    rw [run_add, run_one _ _ sim.running, step_ctx img s pc sim.running hpc hctx]
-    rw [run_params img s as has ps _ (pc + 1) [] s.stack (by exact sim.running) (by simp) (by rfl)
-      (by intro n; rfl) (by intro r _; rfl) hpar]
-    rw [bindArgs_eq_bindRead s as has hnr, bindRead_eq sim ps as has hnr hnd [] (by simp)]
-    apply State.ext' <;> simp
-  refine Exec.trans (Q := fun t => t = _) ⟨1 + (genParams ps as).length, hrun⟩ fun t ht => ?_
-  subst ht
-  -- JSR of a built-in
-  refine Exec.next (by exact sim.running)
-    (step_jsr_builtin img _ (pc + 1 + (genParams ps as).length) g (semArgs σ ps as) s.stack names v
-      (by exact sim.running) (by simp) rfl hnone hbp (by rw [← sim.draws]; exact hval) hjsr) ?_
-  -- END_CTX
-  refine Exec.next (by exact sim.running)
-    (step_eq (pc := pc + 1 + (genParams ps as).length + 1) _ _ (by exact sim.running) (by simp) hend rfl
-      rfl (by exact sim.running)) ?_
-  apply Exec.done
-  refine ⟨?_, sim.running, sim.stack, sim.loops, sim.eval, sim.evok, sim.unnamed, sim.locals, ?_, ?_, ?_, ?_, ?_, ?_,
-    ?_, ?_, ?_, ?_⟩
-  · show ((pc + 1 + (genParams ps as).length : Nat) : Int) + 1 + 1 = _
-    rw [hlen]; omega
-  all_goals (by_cases hr : (g == "random") = true)
-  all_goals try simp only [hr, if_true, Bool.false_eq_true, if_false]
-  all_goals first
-    | exact sim.status | exact sim.umode | exact sim.globals | exact sim.constants | exact sim.lights | exact sim.trace
-    | exact sim.defaultColor | exact sim.matrix | exact sim.draws
-    | (show σ.vm.draws + 1 = s.draws + 1; rw [sim.draws])
-    | (intro r hr'; show σ.vm.regs r = (if r = Reg.result then v else if r = Reg.result then _ else s.regs r)
-       simp only [if_neg hr']; exact sim.regs r hr')
-
-
-/-- a call with simple arguments fails only with a fault, an uninterpreted operation or lack of
-fuel -/
-theorem callRoutine_error (f : Nat) (g : String) (ps : List String) (as : Args) (has : SimpleArgs as)
-    (σ : S) (o : Outcome) (h : callRoutine f g ps as σ = .error o) :
-    o ≠ .normal ∧ o ≠ .brk ∧ o ≠ .ret := by
-  cases f with
-  | zero => simp [callRoutine] at h; subst h; simp
-  | succ f =>
-    simp only [callRoutine] at h
-    split at h
-    · rename_i o' he
-      simp only [Except.error.injEq] at h
-      subst h
-      rw [(evalArgs_simple f ps as has σ).2 _ he]
-      simp
-    · split at h
-      · split at h
-        · simp at h
-        · simp at h
-        · simp at h; subst h; simp
-        · rename_i hn hr hb _
-          simp only [Except.error.injEq] at h
-          subst h
-          exact ⟨hn, hb, hr⟩
-      · split at h
-        · split at h
-          · simp at h
-          · simp at h; subst h; simp
-          · simp at h; subst h; simp
-        · simp at h; subst h; simp
-
-
-/-- the call statement: a user routine of the script, or a built-in -/
-theorem stmt_call (f : Nat) (ihB : ∀ r st, BlockGoal V img ⟨some (r, st), K.routines⟩ f)
-    (ihBR : ∀ r st, BlockRet V img ⟨some (r, st), K.routines⟩ f)
-    (hR : RoutinesAt V img K.routines) (g : String) (ps : List String) (as : Args)
-    (has : SimpleArgs as) (hnr : NoResultReg as) (hnd : ps.Nodup) :
-    StmtGoal img K (.call g ps as) (f + 2) := by
+/-- the call statement: a user routine of the script, or a built-in; its value is dropped -/
+theorem stmt_call (f : Nat) (ihC : CallGoal V img K f) (g : String) (ps : List String) (as : Args)
+    (has : ArgsC V as) (hnd : ps.Nodup) : StmtGoal img K (.call g ps as) (f + 1) := by
   intro σ σ' o s pc exit stk sim hpc hc h ho
   simp only [genStmt, resolve_ins, ins_length] at hc ⊢
   simp only [execStmt] at h
@@ -1166,56 +917,16 @@ theorem stmt_call (f : Nat) (ihB : ∀ r st, BlockGoal V img ⟨some (r, st), K.
   · rename_i v s1 hcall
     simp only [Prod.mk.injEq] at h
     obtain ⟨rfl, rfl⟩ := h
-    simp only [callRoutine] at hcall
-    split at hcall
-    · simp at hcall
-    · rename_i args σa hargs
-      obtain ⟨rfl, rfl⟩ := (evalArgs_simple f ps as has σ).1 _ _ hargs
-      have hRg := hR g
-      rw [← sim.locals.2] at hRg
-      split at hcall
-      · rename_i n' rt hfind
-        rw [hfind] at hRg
-        obtain ⟨hfrag, _, addr, nm, haddr, hbody⟩ := hRg
-        split at hcall
-        · rename_i s2 hex
-          simp only [Except.ok.injEq, Prod.mk.injEq] at hcall
-          obtain ⟨_, rfl⟩ := hcall
-          exact call_user f ihB ihBR g ps as has hnr hnd rt hfrag addr nm haddr hbody σa s2 .normal s pc
-            stk sim hpc hc hex (Or.inl rfl)
-        · rename_i s2 hex
-          simp only [Except.ok.injEq, Prod.mk.injEq] at hcall
-          obtain ⟨_, rfl⟩ := hcall
-          exact call_user f ihB ihBR g ps as has hnr hnd rt hfrag addr nm haddr hbody σa s2 .ret s pc
-            stk sim hpc hc hex (Or.inr rfl)
-        · simp at hcall
-        · simp at hcall
-      · rename_i hfind
-        rw [hfind] at hRg
-        split at hcall
-        · rename_i names hbp
-          split at hcall
-          · rename_i v' hval
-            simp only [Except.ok.injEq, Prod.mk.injEq] at hcall
-            obtain ⟨_, rfl⟩ := hcall
-            exact call_builtin g ps as has hnr hnd hRg names hbp v' σa s pc stk sim hpc hc hval
-          · simp at hcall
-          · simp at hcall
-        · simp at hcall
+    exact (ihC g ps as hnd has σ _ v s pc stk [] [] (SimX.of_sim sim) hpc hc hcall).mono
+      fun t ⟨h1, h2, _⟩ => ⟨h1, h2.to_sim⟩
   · rename_i o' hcall
     simp only [Prod.mk.injEq] at h
     obtain ⟨rfl, rfl⟩ := h
-    have := callRoutine_error (f + 1) g ps as has σ _ hcall
-    rcases ho with rfl | rfl <;> simp at this
-
-theorem stmt_call_one (g : String) (ps : List String) (as : Args) :
-    StmtGoal img K (.call g ps as) 1 := by
-  intro σ σ' o s pc exit stk sim hpc hc h ho
-  simp only [execStmt, callRoutine, Prod.mk.injEq] at h
-  rcases ho with rfl | rfl <;> simp at h
+    have := (eval_error_ctl f).2.2.2 g ps as σ _ hcall
+    rcases ho with rfl | rfl <;> simp [NotCtl] at this
 
 /-- a call statement never ends with `return` -/
-theorem call_not_ret (f : Nat) (g : String) (ps : List String) (as : Args) (has : SimpleArgs as)
+theorem call_not_ret (f : Nat) (g : String) (ps : List String) (as : Args)
     (σ σ' : S) : execStmt f (.call g ps as) σ ≠ (.ret, σ') := by
   intro h
   cases f with
@@ -1226,14 +937,14 @@ theorem call_not_ret (f : Nat) (g : String) (ps : List String) (as : Args) (has 
     · simp at h
     · rename_i o' hcall
       simp only [Prod.mk.injEq] at h
-      exact (callRoutine_error f g ps as has σ _ hcall).2.2 h.1
+      exact ((eval_error_ctl f).2.2.2 g ps as σ _ hcall).2.2 h.1
 
 theorem stmts_ret_zero : StmtsRet V img K 0 := by
   intro st _ σ σ' s pc exit stk _ _ _ h
   simp [execStmt] at h
 
 /-- `return` reaches out of every compound statement -/
-theorem stmts_ret_step (f : Nat) (ihBR : BlockRet V img K f) (ihOs : OperandsRet V img K f)
+theorem stmts_ret_step (f : Nat) (ihRv : RvToGoal V img K f) (ihBR : BlockRet V img K f) (ihOs : OperandsRet V img K f)
     (ihL : LoopRet V img K f) (ret : Nat) (rest : List Frame) (evc : List Val)
     (hK : K.ret = some (ret, rest, evc)) :
     StmtsRet V img K (f + 1) := by
@@ -1243,18 +954,17 @@ theorem stmts_ret_step (f : Nat) (ihBR : BlockRet V img K f) (ihOs : OperandsRet
   · -- if
     cases e with
     | none =>
-      have hc1 : RvOK c := hst.1
+      have hc1 : RvC V c := hst.1
       have ht1 : FragBlock V t := hst.2.1
       simp only [execStmt] at h
       split at h
       · rename_i o' hev
         simp only [Prod.mk.injEq] at h
-        exact ((evalRv_error hc1 f σ _ hev).2.2 h.1).elim
+        exact ((evalRvC_error hev).2.2 h.1).elim
       · rename_i x σ1 hev
         simp only [genStmt, genIf, resolve_append, resolve_ins, ins_length, resolve, List.length_append,
           List.length_cons, List.length_nil] at hc
-        obtain ⟨rfl, hex⟩ := exec_toResult c hc1 sim hpc hc.left.left hev
-        refine hex.trans fun t0 ⟨ht0, hres⟩ => ?_
+        refine (rv_toResult ihRv c hc1 sim hpc hc.left.left hev).trans fun t0 ⟨ht0, hres⟩ => ?_
         by_cases hx : x.truthy = true
         · simp only [hx, if_true] at h
           refine (exec_jump .ifFalse _ (pc + (genRv c (.to result)).length + 1) (by simp) ht0.2 ht0.1
@@ -1262,19 +972,18 @@ theorem stmts_ret_step (f : Nat) (ihBR : BlockRet V img K f) (ihOs : OperandsRet
           exact ihBR t ht1 σ1 σ' t1 _ exit stk ht1'.2 ht1'.1 (cat hc.right) h
         · simp [hx] at h
     | some e =>
-      have hc1 : RvOK c := hst.1
+      have hc1 : RvC V c := hst.1
       have ht1 : FragBlock V t := hst.2.1
       have he1 : FragBlock V e := hst.2.2
       simp only [execStmt] at h
       split at h
       · rename_i o' hev
         simp only [Prod.mk.injEq] at h
-        exact ((evalRv_error hc1 f σ _ hev).2.2 h.1).elim
+        exact ((evalRvC_error hev).2.2 h.1).elim
       · rename_i x σ1 hev
         simp only [genStmt, genIf, resolve_append, resolve_ins, ins_length, resolve, List.length_append,
           List.length_cons, List.length_nil] at hc
-        obtain ⟨rfl, hex⟩ := exec_toResult c hc1 sim hpc hc.left.left.left.left hev
-        refine hex.trans fun t0 ⟨ht0, hres⟩ => ?_
+        refine (rv_toResult ihRv c hc1 sim hpc hc.left.left.left.left hev).trans fun t0 ⟨ht0, hres⟩ => ?_
         have hj := hc.left.left.left.right.head
         have hct := hc.left.left.right
         have hce := hc.right
@@ -1312,12 +1021,12 @@ theorem stmts_ret_step (f : Nat) (ihBR : BlockRet V img K f) (ihOs : OperandsRet
       exact ihOs k ops hst σ2 σ' t2 _ exit stk ht2.2 (by rw [ht2.1]; congr 1) hcr hrest
     · exact (device_ne_ret hw).elim
   · -- return
-    exact stmt_ret f v hst ret rest evc hK σ σ' s pc exit stk sim hpc hc h
-  · exact (call_not_ret (f + 1) g ps as hst.1 σ σ' h).elim
+    exact stmt_ret f ihRv v hst ret rest evc hK σ σ' s pc exit stk sim hpc hc h
+  · exact (call_not_ret (f + 1) g ps as σ σ' h).elim
 
 
 /-- a `return` statement never ends normally or with `break` -/
-theorem stmt_ret_goal (f : Nat) (v : Option Rv) (hv : match v with | some rv => RvOK rv | none => True) :
+theorem stmt_ret_goal (f : Nat) (v : Option Rv) :
     StmtGoal img K (.ret v) (f + 1) := by
   intro σ σ' o s pc exit stk sim hpc hc h ho
   exfalso
@@ -1326,7 +1035,6 @@ theorem stmt_ret_goal (f : Nat) (v : Option Rv) (hv : match v with | some rv => 
     simp only [execStmt, Prod.mk.injEq] at h
     rcases ho with rfl | rfl <;> simp at h
   | some rv =>
-    have hv : RvOK rv := hv
     simp only [execStmt] at h
     split at h
     · simp only [Prod.mk.injEq] at h
@@ -1334,7 +1042,7 @@ theorem stmt_ret_goal (f : Nat) (v : Option Rv) (hv : match v with | some rv => 
     · rename_i o' hev
       simp only [Prod.mk.injEq] at h
       obtain ⟨rfl, rfl⟩ := h
-      exact error_excluded hv hev ho
+      exact errorC_excluded hev ho
 
 end Sim
 end Bardolph
